@@ -161,7 +161,7 @@ fn edit_shape<G: CurveTag>(ch: &mut Choices, m: &mut ProofMirror<G>) -> String {
 fn case<G: CurveTag>(bytes: &[u8], col: &mut Collector, large: bool) -> Result<(), Failure> {
     let cut = bytes.len().min(16);
     let mut chi = Choices::new(&bytes[..cut]);
-    let class = chi.weighted(&[12, 14, 30, 12, 12, 20]);
+    let class = chi.weighted(&[12, 14, 26, 10, 12, 18, 8]);
     let cfg = GenCfg { max_ops1: 10, max_closures: 2, max_ops2: 6, max_commits: 3, big_gates: if large { 40 } else { 0 }, max_terms: if large { 10 } else { 4 } };
     let (prog, mut label): (Program, String) = match class {
         1 => {
@@ -195,6 +195,28 @@ fn case<G: CurveTag>(bytes: &[u8], col: &mut Collector, large: bool) -> Result<(
     let mut crafted_identity: Vec<String> = vec![];
     let mut bc_hold_note = None;
     match class {
+        6 => {
+            // compensating pair edit with the coefficients of the honest verifier run
+            let vr = run_verifier::<G>(&prog, &p.commitments, proof, &VerifyOpts { record: true, ..Default::default() });
+            let Some(chs) = extract_challenges::<G>(&vr.log, vr.main_id, vr.challenges.len()) else {
+                col.note("compensating edit: honest run lacks challenges");
+                return Ok(());
+            };
+            let r = crate::compensate::fork_challenge::<Fr<G>>(&vr.log, vr.main_id);
+            let d: Fr<G> = ScalarSpec::gen_nonzero(&mut chi).to_f();
+            let dp = rand_point::<G>(chi.u16() as u64);
+            let (sel, sel2) = (chi.byte() as usize, chi.u16() as usize);
+            match crate::compensate::compensating_edit::<G>(&mirror, &chs, r, &pc_gens::<G>().B_blinding, sel, sel2, d, dp) {
+                Some((desc, m2)) => {
+                    mirror = m2;
+                    label = format!("compensating edit: {}", desc);
+                }
+                None => {
+                    col.class("compensating-edit-not-applicable");
+                    return Ok(());
+                }
+            }
+        }
         2 => label = format!("field edit: {}", edit_fields::<G>(&mut chi, &mut mirror)),
         3 => label = format!("shape edit: {}", edit_shape::<G>(&mut chi, &mut mirror)),
         4 => {
